@@ -22,23 +22,224 @@ pub fn f15_script() -> Vec<Step> {
     ]
 }
 
-pub fn run(thorough: bool, _rng: Rng, mut out: Out) {
-    let n = if thorough { 400 } else { 60 };
-    let mut leaked = 0;
-    for k in 0..n {
+/// the timeout law read off a trace, independently of the model:
+/// * `timeout` only at or after issue time + T, and only if no response for the op's ID had been
+///   consumed by the driver before that moment; a response consumed strictly before the deadline
+///   is what the caller gets;
+/// * after a timeout and once the scrub is handled the ID is not in the table;
+/// * a response arriving after the timeout is delivered to nobody.
+fn judge(out: &mut Out, label: &str, trace: &[String]) {
+    let mut now: u64 = 0;
+    struct O { t0: u64, tmo: Option<u64>, id: Option<String>, kind: String, resolved: Option<(u64, String)>, resp_at: Option<u64> }
+    let mut ops: Vec<O> = vec![];
+    let mut opq: Vec<usize> = vec![];
+    let mut ok = true;
+    let mut why = String::new();
+    let mut tok_id: std::collections::HashMap<String, String> = Default::default();
+    let mut timed_out_ids: Vec<String> = vec![];
+    let mut scrubbed: Vec<String> = vec![];
+    for t in trace {
+        let w: Vec<&str> = t.split(' ').collect();
+        match (w[0], w.get(1).copied().unwrap_or("")) {
+            ("tick", _) => now += w[1].parse::<u64>().unwrap_or(0),
+            ("cli", "issue") => {
+                ops.push(O { t0: now, tmo: w[4].parse().ok(), id: None, kind: w[3].to_string(), resolved: None, resp_at: None });
+                opq.push(ops.len() - 1);
+            }
+            ("drv", "op") => {
+                if !opq.is_empty() {
+                    let i = opq.remove(0);
+                    ops[i].id = Some(w[2].to_string());
+                }
+            }
+            ("srv", "send") => {
+                tok_id.insert(w[4].to_string(), w[2].to_string());
+            }
+            ("drv", "resp") => {
+                for o in ops.iter_mut() {
+                    if o.id.as_deref() == Some(w[2]) && o.resolved.is_none() && o.resp_at.is_none() && o.kind == "single" {
+                        o.resp_at = Some(now);
+                    }
+                }
+            }
+            ("drv", "scrub") => scrubbed.push(w[2].to_string()),
+            ("cli", "done") => {
+                let i: usize = w[2].parse().unwrap_or(0);
+                if i < ops.len() {
+                    ops[i].resolved = Some((now, w[3].to_string()));
+                    let o = &ops[i];
+                    if w[3] == "timeout" {
+                        if let Some(id) = &o.id {
+                            timed_out_ids.push(id.clone());
+                        }
+                        match o.tmo {
+                            Some(t) if now >= o.t0 + t => {}
+                            _ => {
+                                ok = false;
+                                why = format!("op {} timed out at {} but was issued at {} with timeout {:?}", i, now, o.t0, o.tmo);
+                            }
+                        }
+                        if o.kind == "single" && o.resp_at.is_some() {
+                            ok = false;
+                            why = format!("op {} timed out although its response had been routed at t={:?}", i, o.resp_at);
+                        }
+                    }
+                    if let Some(tok) = w[3].strip_prefix("frame:") {
+                        if tok_id.get(tok) != o.id.as_ref() {
+                            ok = false;
+                            why = format!("op {} got token {} sent under another ID", i, tok);
+                        }
+                    }
+                }
+            }
+            ("tbl", _) => {
+                // IDs whose scrub has been handled must be gone
+                for id in &scrubbed {
+                    if timed_out_ids.contains(id) && t.contains(&format!("[{},", id)) || t.contains(&format!(",{},", id)) || t.contains(&format!(",{}]", id)) || t.ends_with(&format!("[{}]", id)) {
+                        // re-allocation is impossible in these scripts (IDs only grow), so presence = not released
+                        ok = false;
+                        why = format!("ID {} still in the table after its scrub: {}", id, t);
+                    }
+                }
+            }
+            _ => {}
+        }
+    }
+    // a timed operation whose response never came and whose deadline passed long ago must have resolved
+    for (i, o) in ops.iter().enumerate() {
+        if let (Some(t), None) = (o.tmo, &o.resolved) {
+            if now >= o.t0 + t + 1 && o.kind == "single" {
+                ok = false;
+                why = format!("op {} (timeout {}) still pending at t={} although issued at {}", i, t, now, o.t0);
+            }
+        }
+    }
+    out.r(&format!("timeouts.law {}", label), ok, &format!("{} | {}", why, to_model_events(trace)));
+}
+
+pub fn run(thorough: bool, mut rng: Rng, mut out: Out) {
+    let n15 = if thorough { 200 } else { 30 };
+    for k in 0..n15 {
         let o = run_script(&f15_script());
         let ev = to_model_events(&o.trace);
         out.case(&format!("{} #{}", ev, k), true);
         out.m(&format!("conn.trace {}", ev), "accept");
-        // quiescent at the end: both callers have their answer, queues drained
-        let last_maps = o.trace.iter().rev().find(|t| t.starts_with("drv maps")).cloned().unwrap_or_default();
-        let tbl = o.trace.iter().rev().find(|t| t.starts_with("tbl")).cloned().unwrap_or_default();
-        let clean = last_maps == "drv maps r=[] s=[]" && tbl.ends_with("[]");
-        if !clean {
-            leaked += 1;
-        }
-        out.r("leaks.scrub-overtakes-request quiescent ⇒ no routing state, no reserved ID", clean, &format!("{} | {} | {}", last_maps, tbl, ev));
+        let (clean, d) = crate::lanes::leaks::quiescent_clean(&o.trace);
+        out.r("timeouts.scrub-overtakes-request leaves nothing", clean, &format!("{} | {}", d, ev));
     }
-    out.stat_n("f15.leaked-runs", leaked);
-    out.finish("timeout scripts on the paused clock; non-trivial = all");
+    // grid: timeout T x reply arrival relative to the deadline x order of (send, advance) at the tie
+    for &t in &[1u64, 10, 1000, 3_600_000] {
+        for arrival in ["before", "at-send-first", "at-tick-first", "after", "never"] {
+            for companions in 0..3 {
+                let mut sc = vec![];
+                for _ in 0..companions {
+                    sc.push(Step::Issue { kind: OpKind::Single, tmo_ms: None });
+                }
+                let id = companions as i64 + 1;
+                sc.push(Step::Issue { kind: OpKind::Single, tmo_ms: Some(t) });
+                sc.push(Step::Settle);
+                match arrival {
+                    "before" => {
+                        if t > 1 {
+                            sc.push(Step::Tick(t - 1));
+                            sc.push(Step::Settle);
+                        }
+                        sc.push(Step::Send { id, op: 11, good: true });
+                        sc.push(Step::Settle);
+                        sc.push(Step::Tick(2));
+                    }
+                    "at-send-first" => {
+                        if t > 1 {
+                            sc.push(Step::Tick(t - 1));
+                            sc.push(Step::Settle);
+                        }
+                        sc.push(Step::Send { id, op: 11, good: true });
+                        sc.push(Step::Tick(1));
+                    }
+                    "at-tick-first" => {
+                        sc.push(Step::Tick(t));
+                        sc.push(Step::Send { id, op: 11, good: true });
+                    }
+                    "after" => {
+                        sc.push(Step::Tick(t + 1));
+                        sc.push(Step::Settle);
+                        sc.push(Step::Table);
+                        sc.push(Step::Send { id, op: 11, good: true }); // late reply: must reach nobody
+                    }
+                    _ => {
+                        sc.push(Step::Tick(t));
+                        sc.push(Step::Settle);
+                        sc.push(Step::Tick(t));
+                    }
+                }
+                sc.push(Step::Settle);
+                sc.push(Step::Table);
+                // the connection keeps serving others and later operations
+                for c in 0..companions {
+                    sc.push(Step::Send { id: c as i64 + 1, op: 11, good: true });
+                }
+                sc.push(Step::Issue { kind: OpKind::Single, tmo_ms: None });
+                sc.push(Step::Settle);
+                sc.push(Step::Send { id: companions as i64 + 2, op: 11, good: true });
+                sc.push(Step::Settle);
+                sc.push(Step::Table);
+                let o = run_script(&sc);
+                let ev = to_model_events(&o.trace);
+                let label = format!("T={} arrival={} companions={}", t, arrival, companions);
+                out.case(&label, true);
+                out.stat(&format!("arrival.{}", arrival));
+                out.m(&format!("conn.trace {}", ev), "accept");
+                judge(&mut out, &label, &o.trace);
+                // usable afterwards: the later operation got its answer
+                let later = format!("cli done {} frame:", companions + 1);
+                out.r(&format!("timeouts.connection-usable {}", label), o.trace.iter().any(|x| x.starts_with(&later)) && (0..companions).all(|c| o.trace.iter().any(|x| x.starts_with(&format!("cli done {} frame:", c)))), &ev);
+                if arrival == "after" || arrival == "never" {
+                    out.r(&format!("timeouts.fires {}", label), o.trace.iter().any(|x| x == &format!("cli done {} timeout", companions)), &ev);
+                }
+                if arrival == "before" {
+                    out.r(&format!("timeouts.early-reply-wins {}", label), o.trace.iter().any(|x| x.starts_with(&format!("cli done {} frame:", companions))), &ev);
+                }
+            }
+        }
+    }
+    // timed searches: the timer restarts with every next() call
+    for &t in &[10u64, 1000] {
+        for gap in [t - 1, t, t + 1] {
+            let mut sc = vec![Step::Issue { kind: OpKind::Search, tmo_ms: Some(t) }, Step::Settle];
+            for _ in 0..3 {
+                sc.push(Step::Next(0));
+                sc.push(Step::Tick(gap));
+                sc.push(Step::Settle);
+                sc.push(Step::Send { id: 1, op: 4, good: false });
+                sc.push(Step::Settle);
+            }
+            sc.push(Step::Finish(0));
+            sc.push(Step::Settle);
+            sc.push(Step::Table);
+            let o = run_script(&sc);
+            let ev = to_model_events(&o.trace);
+            let label = format!("search T={} gap={}", t, gap);
+            out.case(&label, true);
+            out.m(&format!("conn.trace {}", ev), "accept");
+            let nitems = o.trace.iter().filter(|x| x.starts_with("cli next 0") && x.contains("item:entry")).count();
+            let timed_out = o.trace.iter().any(|x| x.starts_with("cli next 0") && x.ends_with("timeout"));
+            // gaps below T: all three items arrive although the total time exceeds T; gap >= T: the first next() times out
+            let good = if gap < t { nitems == 3 && !timed_out } else { timed_out && nitems == 0 };
+            out.r(&format!("timeouts.search-timer-restarts {}", label), good, &ev);
+            let (clean, d) = crate::lanes::leaks::quiescent_clean(&o.trace);
+            out.r(&format!("timeouts.search-leaves-nothing {}", label), clean, &d);
+        }
+    }
+    // random mixes of timed and untimed operations
+    let n = if thorough { 3000 } else { 250 };
+    for k in 0..n {
+        let n_ops = rng.range(2, 8) as usize;
+        let script = crate::lanes::routing::gen_script_ex(&mut rng, n_ops, false, true, true, k % 5 == 0);
+        let o = run_script(&script);
+        let ev = to_model_events(&o.trace);
+        out.case(&ev, true);
+        out.m(&format!("conn.trace {}", ev), "accept");
+        judge(&mut out, &format!("random#{}", k), &o.trace);
+    }
+    out.finish("paused-clock scripts: timeouts T in {1ms,10ms,1s,1h} x reply arrival {T-1, T with either order of send/advance, T+1, never} x 0..2 untimed companions; timed searches with item gaps T-1, T, T+1; random mixes of timed/untimed operations incl. stalled writes; the F15 witness; non-trivial = all; distinct by label/trace");
 }
